@@ -48,49 +48,86 @@ def r1_identity(ctx) -> None:
         ctx.check(not extra, "C16.R1", f"{cname}: no extra fields", m.path, c.node.lineno, "", c.node, found=str(extra))
 
 
+def _has(p, spec) -> bool:
+    """the path takes each listed test the listed way"""
+    return all(any(u(t) == txt and k == pol for t, k in p.tests) for txt, pol in spec.items())
+
+
 def r2_counts(ctx) -> None:
+    """stated over path summaries / canonical bodies: locals, temporaries, loop-vs-comprehension and helper extraction do not matter"""
+    from ..rulekit import unold
+    from ..tmpl import T, tfind, thas, tmatch
     prog = ctx.program
     hugr = prog.cls("hugr.hugr.base.Hugr")
     file = hugr.module.path
+    H = "hugr.hugr.base.Hugr"
     an = hugr.methods["_add_node"]
-    rep = [c for c in calls_in(an) if u(c.func) == "replace" and kwarg(c, "_num_out_ports") is not None]
-    ok = len(rep) == 1 and u(kwarg(rep[0], "_num_out_ports")) == "num_outs"
-    rets = [r for r in ast.walk(an) if isinstance(r, ast.Return)]
-    ok = ok and len(rets) == 1 and u(rets[0].value) == "node"
+    ps = [p for p in ctx.paths(f"{H}._add_node") if p.kind != "raise"]
+    ok = bool(ps) and all(p.kind == "return" and tmatch(p.value, T("replace(ANY_, _num_out_ports=num_outs, _metadata=ANY_)")) is not None
+                          or p.kind == "return" and tmatch(p.value, T("replace(ANY_, _num_out_ports=num_outs)")) is not None for p in ps)
     ctx.check(ok, "C16.R2", "Hugr._add_node: handle carries the requested count", file, an.lineno,
               "the handle returned for a new node must know the output count it was created with", an)
     pub = hugr.methods["add_node"]
-    rb = real_body(pub)
-    ok = any(isinstance(s, ast.Return) and u(s.value) == "self._add_node(op, parent, num_outs, metadata)" for s in rb)
+    ps = ctx.paths(f"{H}.add_node")
+    pa = [a.arg for a in pub.args.args]
+    ok = bool(ps) and all(p.kind == "return" and tmatch(p.value, T(f"self._add_node({pa[1]}, ANY_, {pa[3]}, {pa[4]})")) is not None for p in ps)
     ctx.check(ok, "C16.R2", "Hugr.add_node: forwards num_outs", file, pub.lineno, "", pub)
     up = hugr.methods["_update_port_count"]
-    src = u(up)
-    ok = "node = replace(node, _num_out_ports=num_outs)" in src and "self[parent].children[pos] = node" in src and "self[parent].children.index(node)" in src
-    rets = [r for r in ast.walk(up) if isinstance(r, ast.Return)]
-    ok = ok and all(u(r.value) == "node" for r in rets)
-    ctx.check(ok, "C16.R2", "Hugr._update_port_count: refreshed handle", file, up.lineno,
-              "changing a node's output count must return a refreshed handle and refresh the copy kept in the parent's child list", up)
+    ups = [p for p in ctx.paths(f"{H}._update_port_count") if p.kind != "raise"]
+    node_p = up.args.args[1].arg
+    new_h = f"replace({node_p}, _num_out_ports=num_outs)"
+    ok = bool(ups)
+    seen = set()
+    for p in ups:
+        changed = [k for t, k in p.tests if u(t) == "num_outs is not None"]
+        if not changed or p.kind != "return":
+            ok = False
+            continue
+        if not changed[0]:
+            ok = ok and p.value_text() == node_p
+            continue
+        ok = ok and unold(p.value) == new_h
+        st = p.find_effect("self[E_par].children[self[E_par].children.index(E_n)] = E_n")
+        has_par = [k for t, k in p.tests if isinstance(t, ast.Compare) and u(t).endswith(".parent is not None")]
+        if has_par and has_par[0]:
+            seen.add("child")
+            ok = ok and len(st) == 1 and unold(st[0][2]["E_n"]) == new_h
+        else:
+            seen.add("root")
+            ok = ok and bool(has_par) and not st
+    ctx.check(ok and seen == {"child", "root"}, "C16.R2", "Hugr._update_port_count: refreshed handle", file, up.lineno,
+              "changing a node's output count must return a refreshed handle and refresh the copy kept in the parent's child list", up,
+              found="; ".join(p.describe() for p in ups)[:300])
     uo = hugr.methods["_update_node_outs"]
-    ok = u(real_body(uo)[-1]) == "return self._update_port_count(node, num_outs=num_outs)"
+    ps = ctx.paths(f"{H}._update_node_outs")
+    a = [x.arg for x in uo.args.args]
+    ok = bool(ps) and all(p.kind == "return" and p.value_text() == f"self._update_port_count({a[1]}, num_outs={a[2]})" for p in ps)
     ctx.check(ok, "C16.R2", "Hugr._update_node_outs", file, uo.lineno, "", uo)
-    ih = hugr.methods["insert_hugr"]
+    ih = ctx.cfn(f"{H}.insert_hugr")
     adds = [c for c in calls_in(ih) if call_name(c) in ("add_node", "_add_node")]
     ok = len(adds) == 1 and kwarg(adds[0], "num_outs", 2) is not None and u(kwarg(adds[0], "num_outs", 2)).endswith("._num_outs")
     ctx.check(ok, "C16.R2", "Hugr.insert_hugr: copied handles carry the source's count", file, ih.lineno, "", ih)
     # builders
     df = prog.cls("hugr.build.dfg.DfBase")
     dfile = df.module.path
+    D = "hugr.build.dfg.DfBase"
     ao = df.methods["add_op"]
-    rets = [r for r in ast.walk(ao) if isinstance(r, ast.Return)]
-    ok = len(rets) == 1 and u(rets[0].value) == "replace(new_n, _num_out_ports=op.num_out)"
-    wired_before = any("self._wire_up(new_n" in u(s) for s in real_body(ao))
-    ctx.check(ok and wired_before, "C16.R2", "DfBase.add_op: handle carries op.num_out", dfile, ao.lineno,
+    opp = (ao.args.posonlyargs + ao.args.args)[1].arg
+    ps = [p for p in ctx.paths(f"{D}.add_op") if p.kind != "raise"]
+    ok = bool(ps)
+    for p in ps:
+        e = tmatch(p.value, T(f"replace(E_n, _num_out_ports={opp}.num_out)")) if p.kind == "return" else None
+        w = p.find_effect("self._wire_up(E_n, E_args)", e) if e is not None else []
+        ok = ok and e is not None and len(w) == 1 and "add_node(" in e["E_n"]
+    ctx.check(ok, "C16.R2", "DfBase.add_op: handle carries op.num_out", dfile, ao.lineno,
               "the handle returned by add_op must carry the operation's output count, read after wiring (partial ops learn their types there)", ao)
     call = df.methods["call"]
-    adds = [c for c in calls_in(call) if call_name(c) == "add_node"]
-    ok = len(adds) == 1 and (kwarg(adds[0], "num_outs", 2) is not None and u(kwarg(adds[0], "num_outs", 2)) == "call_op.num_out")
-    rets = [r for r in ast.walk(call) if isinstance(r, ast.Return)]
-    ok = ok and len(rets) == 1 and u(rets[0].value) == "call_n"
+    ps = [p for p in ctx.paths(f"{D}.call") if p.kind != "raise"]
+    ok = bool(ps)
+    for p in ps:
+        v = ast.parse(unold(p.value), mode="eval").body if p.kind == "return" and p.value is not None else None
+        e = tmatch(v, T("self.hugr.add_node(E_op, self.parent_node, E_op.num_out)")) if v is not None else None
+        ok = ok and e is not None and e["E_op"].startswith("ops.Call(")
     ctx.check(ok, "C16.R2", "DfBase.call: handle carries call_op.num_out", dfile, call.lineno, "", call)
     from ..nf import NF as _NF
     _nf = _NF(prog)
@@ -102,12 +139,16 @@ def r2_counts(ctx) -> None:
               "the count stored in a call's handle is Call.num_out: it must be the number of outputs of the instantiated signature (the polymorphic body can have another arity)",
               nm, expected=show(want), found="; ".join(show(t) for t in got))
     ld = df.methods["load"]
-    ok = any(isinstance(s, ast.Assign) and u(s) == "load = self.add(load_op())" for s in ast.walk(ld)) and u([r for r in ast.walk(ld) if isinstance(r, ast.Return)][-1].value) == "load"
+    ps = [p for p in ctx.paths(f"{D}.load") if p.kind != "raise"]
+    ok = bool(ps) and all(p.kind == "return" and unold(p.value).startswith("self.add(") for p in ps)
     ctx.check(ok, "C16.R2", "DfBase.load: handle from add", dfile, ld.lineno, "", ld)
-    for name in ("add", "extend"):
-        m = df.methods[name]
-        ok = ("return self.add_op(" in u(m)) if name == "add" else (u(real_body(m)[-1]) == "return [self.add(com) for com in coms]")
-        ctx.check(ok, "C16.R2", f"DfBase.{name}: returns add_op handles", dfile, m.lineno, "", m)
+    m = df.methods["add"]
+    ps = [p for p in ctx.paths(f"{D}.add") if p.kind != "raise"]
+    ok = bool(ps) and all(p.kind == "return" and unold(p.value).startswith("self.add_op(") for p in ps)
+    ctx.check(ok, "C16.R2", "DfBase.add: returns add_op handles", dfile, m.lineno, "", m)
+    m = df.methods["extend"]
+    ok = thas(ctx.cfn(f"{D}.extend"), "return [self.add(c0) for c0 in L_coms]")
+    ctx.check(ok, "C16.R2", "DfBase.extend: returns add_op handles", dfile, m.lineno, "", m)
     # every _update_node_outs / _update_port_count on the builder's own parent node is assigned back
     n = 0
     for mn, m in prog.modules.items():
@@ -132,7 +173,9 @@ def r2_counts(ctx) -> None:
         ctx.check(any(call_name(x) == callee for x in calls_in(m)), "C16.R2", f"{q.split('.', 2)[2]}: updates the container's count", c.module.path, m.lineno,
                   f"once outputs are set the container handle must learn its output count (via {callee})", m)
     sp = df.methods["_set_parent_output_count"]
-    ok = u(real_body(sp)[-1]) == "self.parent_node = self.hugr._update_node_outs(self.parent_node, count)"
+    cnt = sp.args.args[1].arg
+    ps = [p for p in ctx.paths(f"{D}._set_parent_output_count") if p.kind != "raise"]
+    ok = bool(ps) and all(len(p.find_effect(f"self.parent_node = self.hugr._update_node_outs(self.parent_node, {cnt})")) == 1 for p in ps)
     ctx.check(ok, "C16.R2", "DfBase._set_parent_output_count", dfile, sp.lineno, "", sp)
 
 
@@ -167,52 +210,55 @@ def r3_protocol(ctx) -> None:
         ctx.check(got == want, "C16.R3", f"ToNode.{name}", m.path, meth.lineno, f"ToNode.{name} must be {expr} {('(' + why + ')') if why else ''}", meth, expected=show(want), found=show(got))
     node = m.classes["Node"]
     ctx.check(u(real_body(node.methods["to_node"])[-1]) == "return self", "C16.R3", "Node.to_node", m.path, node.methods["to_node"].lineno, "", node.methods["to_node"])
-    # _index: ValueError exactly when stop and the count are both unknown
+    # _index: ValueError exactly when stop and the count are both unknown   (path summaries)
     ix = node.methods.get("_index")
     if ix is None:
         ctx.broken("anchor vanished: Node._index")
-    slice_arm = [c for n in ast.walk(ix) if isinstance(n, ast.Match) for c in n.cases if isinstance(c.pattern, ast.MatchClass) and u(c.pattern.cls) == "slice"]
-    if len(slice_arm) != 1:
-        ctx.broken("Node._index: slice arm not found")
-    g = CFG(slice_arm[0].body)
-    rs = _raise_nodes(g, "ValueError")
-    ok = len(rs) == 1
-    if ok:
-        tests = _controlling_tests(g, rs[0])
-        ok = any(u(g.stmt[t]) == "stop is None" and lab == "T" for t, lab in tests)
-        stop = [s for s in slice_arm[0].body if isinstance(s, ast.Assign) and u(s.targets[0]) == "stop"]
-        ok = ok and len(stop) >= 1 and u(stop[0].value) == "index.stop if index.stop is not None else self._num_out_ports"
+    ip = ix.args.args[1].arg
+    ps = ctx.paths(f"{NP}.Node._index")
+    sl = [p for p in ps if any(u(t) == f"isinstance({ip}, slice)" and k for t, k in p.tests)]
+    unknown = [p for p in sl if _has(p, {f"{ip}.stop is not None": False, "self._num_out_ports is not None": False})]
+    known = [p for p in sl if p not in unknown]
+    ok = bool(unknown) and all(p.kind == "raise" and p.value_text().startswith("ValueError") for p in unknown) and bool(known) and all(p.kind == "return" for p in known)
     ctx.check(ok, "C16.R3", "Node._index: ValueError without a known count", m.path, ix.lineno,
-              "slicing (and therefore iterating) a handle raises ValueError exactly when neither the slice's stop nor the handle's output count is known", ix)
-    src = u(slice_arm[0])
-    ok = "self._normalize_index(start, allow_overflow=True)" in src and "self._normalize_index(stop, allow_overflow=True)" in src and "range(start, stop, step)" in src \
-        and "start = index.start or 0" in src and "step = index.step or 1" in src
-    ctx.check(ok, "C16.R3", "Node._index: slice bounds normalised with clamping", m.path, ix.lineno, "", ix)
-    int_arm = [c for n in ast.walk(ix) if isinstance(n, ast.Match) for c in n.cases if isinstance(c.pattern, ast.MatchClass) and u(c.pattern.cls) == "PortOffset"]
-    ok = len(int_arm) == 1 and "self._normalize_index(index)" in u(int_arm[0]) and "return self.out(index)" in u(int_arm[0])
+              "slicing (and therefore iterating) a handle raises ValueError exactly when neither the slice's stop nor the handle's output count is known", ix,
+              found="; ".join(p.describe() for p in sl)[:300])
+    ok = bool(known)
+    for p in known:
+        stop = f"{ip}.stop" if _has(p, {f"{ip}.stop is not None": True}) else "self._num_out_ports"
+        want = f"(self[c0] for c0 in range(self._normalize_index({ip}.start or 0, True), self._normalize_index({stop}, True), {ip}.step or 1))"
+        ok = ok and p.value_text() in (want, want.replace("(self[c0] for", "[self[c0] for")[:-1] + "]")
+    ctx.check(ok, "C16.R3", "Node._index: slice bounds normalised with clamping", m.path, ix.lineno, "", ix, found="; ".join(p.value_text() for p in known)[:300])
+    ia = [p for p in ps if any(u(t) in (f"isinstance({ip}, PortOffset)", f"isinstance({ip}, int)") and k for t, k in p.tests)]
+    ok = bool(ia) and all(p.kind == "return" and p.value_text() == f"self.out(self._normalize_index({ip}))" for p in ia)
     ctx.check(ok, "C16.R3", "Node._index: integer indexing normalised without clamping", m.path, ix.lineno, "", ix)
     # _normalize_index: three IndexError refusals under the right tests
     ni = node.methods.get("_normalize_index")
-    g = CFG(real_body(ni))
-    rs = _raise_nodes(g, "IndexError")
-    specs = {"overflow": ["index >= self._num_out_ports", "not allow_overflow"], "underflow": ["index < -self._num_out_ports"], "negative-unknown": ["index < 0"]}
-    found = {}
-    for r in rs:
-        tests = [(u(g.stmt[t]), lab) for t, lab in _controlling_tests(g, r)]
-        txt = " & ".join(f"{t}:{lab}" for t, lab in tests)
-        for k, frags in specs.items():
-            if all(any(f in t for t, lab in tests) for f in frags):
-                if k == "negative-unknown" and not any("self._num_out_ports is not None" in t and lab == "F" for t, lab in tests):
-                    continue
-                if k != "negative-unknown" and not any("self._num_out_ports is not None" in t and lab == "T" for t, lab in tests):
-                    continue
-                found[k] = txt
-    for k in specs:
-        ctx.check(k in found, "C16.R3", f"Node._normalize_index: IndexError on {k}", m.path, ni.lineno,
-                  f"the {k} case must be refused with IndexError under the tests {specs[k]}", ni, detail=found.get(k, ""))
-    rets = sorted(u(r.value) for r in ast.walk(ni) if isinstance(r, ast.Return))
-    ctx.check(rets == sorted(["min(index, self._num_out_ports)", "index", "self._num_out_ports + index"]), "C16.R3", "Node._normalize_index: results", m.path, ni.lineno,
-              "non-negative indices are clamped to the count (when known), negative ones are counted from the end", ni, found=str(rets))
+    i_ = ni.args.args[1].arg
+    ps = ctx.paths(f"{NP}.Node._normalize_index")
+    K = "self._num_out_ports is not None"
+    specs = {"overflow": {K: True, f"{i_} < self._num_out_ports": False, "allow_overflow": False},
+             "underflow": {K: True, f"{i_} < -self._num_out_ports": True},
+             "negative-unknown": {K: False, f"{i_} < 0": True}}
+    for k, spec in specs.items():
+        hit = [p for p in ps if _has(p, spec)]
+        ok = bool(hit) and all(p.kind == "raise" and p.value_text().startswith("IndexError") for p in hit)
+        ctx.check(ok, "C16.R3", f"Node._normalize_index: IndexError on {k}", m.path, ni.lineno,
+                  f"the {k} case must be refused with IndexError under the tests {spec}", ni, detail="; ".join(p.describe() for p in hit)[:200],
+                  found="; ".join(p.describe() for p in ps)[:300])
+    ok = True
+    for p in ps:
+        if p.kind != "return":
+            continue
+        kn = [k for t, k in p.tests if u(t) == K]
+        neg = [k for t, k in p.tests if u(t) == f"{i_} < 0"]
+        if not kn or not neg:
+            ok = False
+            continue
+        want = (f"self._num_out_ports + {i_}" if neg[0] else f"min({i_}, self._num_out_ports)") if kn[0] else i_
+        ok = ok and p.value_text() == want
+    ctx.check(ok, "C16.R3", "Node._normalize_index: results", m.path, ni.lineno,
+              "non-negative indices are clamped to the count (when known), negative ones are counted from the end", ni, found="; ".join(p.describe() for p in ps if p.kind == "return")[:300])
 
 
 def run(ctx) -> None:
